@@ -23,7 +23,7 @@ for md in sys.argv[2:]:
         cands = [c for c in re.findall(r'[A-Za-z0-9_./-]+_test\.go', head) if "_mutants" not in c]
         target = None
         for c in cands:
-            c = re.sub(r'^/tmp/wt_C\d+/', '', c).lstrip('/')
+            c = re.sub(r'^/tmp/w[t2]_C\d+/', '', c).lstrip('/')
             if '/' in c and os.path.basename(c) not in ("server_test.go", "client_test.go", "observe_test.go", "blockwise_test.go"):
                 target = c
                 break
